@@ -125,8 +125,9 @@ fn set_heights(p: &mut StarkProof) {
     }
 }
 
-pub const GROUPS: [&str; 9] = [
+pub const GROUPS: [&str; 11] = [
     "n_queries", "blowup", "blowup_mod_p", "trace_size", "last_layer_bound", "n_layers", "n_friendly", "fri_input_only", "steps_all",
+    "big_domain", "step1_shift",
 ];
 
 pub fn group_values(name: &str) -> Vec<u64> {
@@ -140,6 +141,11 @@ pub fn group_values(name: &str) -> Vec<u64> {
         "n_friendly" => vec![0, 1, 5, 1 << 20, u64::MAX],
         "fri_input_only" => vec![0, 1, 5, 40, 1 << 20],
         "steps_all" => vec![0, 1, 2, 4, 5, 16, 64, 1 << 40],
+        // trace exponent with a 15-layer, all-steps-4 FRI re-declared around it (the only way to reach
+        // evaluation domains beyond 2^64 through validation)
+        "big_domain" => vec![56, 57, 60, 61, 62, 63, 64, 65, 66, 70, 71],
+        // first inner step raised by v (1..=3), the second lowered by v, columns and heights following
+        "step1_shift" => vec![1, 2, 3],
         _ => vec![],
     }
 }
@@ -229,6 +235,38 @@ pub fn apply_group(p: &mut StarkProof, name: &str, v: u64) {
                 l.vector.height += f;
             }
         }
+        "big_domain" => {
+            let n = 15usize;
+            p.config.fri.n_layers = Felt::from(n as u64);
+            p.config.fri.fri_step_sizes = std::iter::once(Felt::ZERO).chain((1..n).map(|_| Felt::from(4u64))).collect();
+            if let Some(tc) = p.config.fri.inner_layers.first().cloned() {
+                let mut tc = tc;
+                tc.n_columns = Felt::from(16u64);
+                p.config.fri.inner_layers = vec![tc; n - 1];
+            }
+            p.unsent_commitment.fri.inner_layers.resize(n - 1, Felt::ONE);
+            if let Some(w) = p.witness.fri_witness.layers.first().cloned() {
+                p.witness.fri_witness.layers.resize(n - 1, w);
+            }
+            let lb = v.saturating_sub(56).min(15);
+            p.config.fri.log_last_layer_degree_bound = Felt::from(lb);
+            p.unsent_commitment.fri.last_layer_coefficients.resize(1usize << lb, Felt::ZERO);
+            p.config.log_trace_domain_size = Felt::from(56 + lb);
+            p.public_input.log_n_steps = Felt::from(56 + lb) - Felt::from(4u64);
+            set_heights(p);
+        }
+        "step1_shift" => {
+            if p.config.fri.fri_step_sizes.len() >= 3 {
+                p.config.fri.fri_step_sizes[1] += f;
+                p.config.fri.fri_step_sizes[2] -= f;
+                for i in [0usize, 1] {
+                    if let (Some(s), Some(l)) = (p.config.fri.fri_step_sizes.get(i + 1).and_then(|x| vcommon::fu64(x)), p.config.fri.inner_layers.get_mut(i)) {
+                        l.n_columns = if s < 60 { Felt::from(1u64 << s) } else { Felt::ZERO };
+                    }
+                }
+                set_heights(p);
+            }
+        }
         "steps_all" => {
             let n = p.config.fri.fri_step_sizes.len();
             for s in p.config.fri.fri_step_sizes.iter_mut().skip(1) {
@@ -315,7 +353,9 @@ pub fn edits_for(base: &Value, rng: &mut Rng, thorough: bool, budget_singles: us
         let cur = get(base, l).unwrap();
         let is_hex = cur.is_string();
         let cls = path_class(l);
-        let structural = cls.starts_with("config") || (cls.starts_with("public_input") && !cls.contains("main_page") && !cls.contains("dynamic_params")) || cls.contains("nonce");
+        let ps = path_str(l);
+        let dyn_switch = ps.contains("dynamic_params.uses_") || (ps.contains("dynamic_params.") && ps.ends_with("row_ratio")) || ps.ends_with("cpu_component_step") || ps.contains("num_columns_");
+        let structural = cls.starts_with("config") || (cls.starts_with("public_input") && !cls.contains("main_page") && !cls.contains("dynamic_params")) || cls.contains("nonce") || dyn_switch;
         for (k, v) in mutate::extreme_values(is_hex, mutate::int_max_for(l)) {
             let e = Edit::Set(l.clone(), k, v);
             if structural {
@@ -326,9 +366,13 @@ pub fn edits_for(base: &Value, rng: &mut Rng, thorough: bool, budget_singles: us
         }
     }
     if !thorough {
-        // quick runs every honest proof of the build: sample the scalar sweeps
-        rng.shuffle(&mut singles);
-        singles.truncate(160);
+        // quick runs every honest proof of the build: sample the scalar sweeps (dynamic-layout switches
+        // - builtin flags and row ratios - at 0 / 1 are always kept: they pair up with each other)
+        let (keep, mut rest): (Vec<Edit>, Vec<Edit>) = singles.into_iter().partition(|e| matches!(e, Edit::Set(p, k, _) if path_str(p).contains("dynamic_params.") && (k == "0" || k == "1")));
+        rng.shuffle(&mut rest);
+        rest.truncate(160);
+        singles = keep;
+        singles.extend(rest);
     }
     out.extend(singles);
     rng.shuffle(&mut others);
